@@ -2,6 +2,7 @@
 Handlers for the partial information decomposition (C17).
 -/
 import DitModel.Core.Lattice
+import DitModel.Core.Wedge
 import DitModel.Drv.Info
 namespace Dit.Drv
 open Dit
@@ -33,7 +34,7 @@ def nodeVars (sources : List VSet) (x : RNode) : RNode :=
   x.map (fun s => vunions (s.map (fun i => sources.getD i [])))
 
 /-- `pidf [name, ftab, sources, target]`: the redundancy of every node of `rnodes n`
-(`n = sources.length`) for `imin` / `immi`, in `Float`. -/
+(`n = sources.length`) for `imin` / `immi` / `iwedge`, in `Float`. -/
 def hPidF : J → Option J
   | .arr [.str name, t, sources, target] => do
       let t ← J.toFTab? t
@@ -43,6 +44,9 @@ def hPidF : J → Option J
       match name with
       | "immi" => pure (listJ (fun x => floatJ (immi Float.log2 t target (nodeVars sources x))) nodes)
       | "imin" => pure (listJ (fun x => floatJ (imin Float.log2 t target (nodeVars sources x))) nodes)
+      | "iwedge" =>
+        let n := (t.head?.map (fun r => r.1.length)).getD 0
+        pure (listJ (fun x => floatJ (iwedge Float.log2 id t n target (nodeVars sources x))) nodes)
       | _ => none
   | _ => none
 
